@@ -603,6 +603,13 @@ def run_tree(specs, via="build", default=False):
         else:
             cfgs = make_configs(specs)
             roots = build_config_tree_from_list(cfgs, PermutationMapper(wildcard="R", ignore_case=True))
+        # the hierarchy is HELD while a second one is built from some of the same FGConfig objects (every second group,
+        # reversed): building another hierarchy must not rewire the one already handed out
+        if len(cfgs) >= 3:
+            try:
+                build_config_tree_from_list(list(reversed(cfgs[::2])), PermutationMapper(wildcard="R", ignore_case=True))
+            except (AssertionError, KeyError, IndexError, ValueError, TypeError):
+                pass
         return ("ok", tree_view(roots, cfgs, labels_of(specs)))
     except (AssertionError, KeyError, IndexError, ValueError, TypeError) as e:
         return _exc(e)
@@ -751,8 +758,17 @@ def same_names_variant(rng, specs):
 # in-place edits of a molecule between two get() calls on the same FGQuery object
 
 def apply_edits(g, edits):
-    """modify the networkx graph g IN PLACE"""
+    """modify the networkx graph g IN PLACE (an edit whose target no longer exists - because the implementation
+    itself removed it from the caller's graph, which is reported separately as a mutation - is skipped)"""
     for e in edits:
+        try:
+            _apply_edit(g, e)
+        except (KeyError, nx.NetworkXError):
+            pass
+
+
+def _apply_edit(g, e):
+    for e in [e]:
         k = e[0]
         if k == "sym":
             g.nodes[e[1]]["symbol"] = e[2]
